@@ -149,6 +149,17 @@ def ev(e, env):
     if t == 'tostr':
         x = ev(e[1], env)
         return str(x)
+    if t == 'call':
+        args = [ev(x, env) for x in e[2]]
+        if e[1] == 'f':
+            return 'F%d' % len(args)
+        if e[1] == 'g':
+            return ['G', len(args)]
+        raise ValueError(e[1])
+    if t == 'index':
+        return ev(e[1], env)[e[2]]
+    if t == 'paren':
+        return ev(e[1], env)
     if t == 'int_of':
         x = ev(e[1], env)
         try:
